@@ -6,6 +6,7 @@ CONSTANTS
   M_Recharge = TRUE
   M_SignalOnPut = TRUE
   M_UnblockOnlyIfEmpty = TRUE
+  M_UnblockRechecksBlocked = TRUE
   M_CommitCheckUnderLock = TRUE
 INVARIANTS NoEventLost NoCodePanic OneOwner ChargedRight TakenInOrder AllReleased
 PROPERTIES AllTaken CommitMonotone
